@@ -54,6 +54,18 @@ def gen_cases(rng, tier):
     model = spec.gen_pair_model(rng, groute, target=rng.choice(["DL_POLY", "DLPOLY"]), nr_choices=[nr], maxlabel=8,
                                 depth=1 if reject else 2, rmax_scale=lambda n: n / max(1.0, n - 4.0))
     cases.append({"route": route, "model": model, "style": rng.randrange(1 << 30), "reject": reject})
+  # a discontinuity of V exactly on a grid point of a grid whose step is NOT a dyadic fraction (r accumulates
+  # rounding there): energy and force of that row must still come from one and the same branch
+  for i in range(8 if tier == "quick" else 80):
+    nr = rng.choice([104, 204, 1004])
+    cutoff = (nr - 4) * rng.choice([0.01, 0.05, 0.1])
+    b1 = round(rng.randint(3, nr - 10) * cutoff / (nr - 4), 6)
+    inner = {"k": "form", "name": "polynomial", "p": [spec.rfloat(rng, 1.0, 5.0), spec.rfloat(rng, -1.0, -0.2), spec.rfloat(rng, 0.01, 0.1)]}
+    outer = rng.choice([{"k": "form", "name": "zero", "p": []}, {"k": "form", "name": "polynomial", "p": [spec.rfloat(rng, -3.0, -1.0), spec.rfloat(rng, 0.3, 1.0)]}])
+    node = {"k": "ranges", "parts": [[">", 0.0, inner], [rng.choice([">", ">="]), b1, outer]]}
+    route = ["api_class", "api_legacy", "potable"][i % 3]
+    model = {"type": "pair", "target": rng.choice(["DL_POLY", "DLPOLY"]), "tab": {"nr": nr, "cutoff": cutoff}, "forms": [], "tables": [], "pair": [["Ar", "Kr", node]]}
+    cases.append({"route": route, "model": model, "style": rng.randrange(1 << 30), "reject": False, "boundary_on_grid": b1})
   # potentials whose energy is exactly 0 at a grid point where the slope is not (roots on the grid):
   # a writer that treats "energy == 0" as "switched off" would print a zero force there
   for i in range(6 if tier == "quick" else 60):
@@ -136,6 +148,10 @@ def run_case(case, ctx):
   if case.get("root_on_grid"):
     rows = sorted(set(rows + [case["root_on_grid"] - 1]))
     ctx.cls("root_on_grid")
+  if case.get("boundary_on_grid"):
+    kb = int(round(case["boundary_on_grid"] / float(delpot)))
+    rows = sorted(set(rows + [k for k in (kb - 2, kb - 1, kb) if 0 <= k < nr]))
+    ctx.cls("discontinuity_on_grid_point")
   try:
     for o in refs:
       for i in rows:
@@ -222,6 +238,27 @@ def run_case(case, ctx):
       d_ref = o.deriv(r)
       drift = (k + 4) * mp.mpf("2.3e-16") * r
       oracle.check_value(ctx, "energy", blk["energies"][i], o, r, where=where, abs_=abs(d_ref) * drift)
+      if oracle.on_break(r, o.breaks, 1e-9) and o.analytic:
+        # a grid point on a range boundary: energy and force must come from the SAME branch of V.
+        # If the printed energy identifies one side, the force has to be the derivative of that side.
+        sides = oracle.matching_sides(o, r, blk["energies"][i], abs_=abs(d_ref) * drift)
+        allsides = oracle.branch_sides(o, r)
+        if len(sides) >= 1 and len(set(sides)) < len(allsides):
+          okf = False
+          last = None
+          for at in sides:
+            try:
+              fr = -r * mp.diff(lambda x: o.m.value(o.node, x, at), r)
+              okk, df, tl = R.close(float(blk["forces"][i]), fr, q=R.token_quantum(blk["forces"][i]), sc=o.dscale(r) * r, rel=1e-8, mag=o.dmag(r) * r, abs_=abs(fr) * 1e-6)
+              last = (fr, df, tl)
+              okf = okf or okk
+            except Exception:
+              okf = True
+          ctx.count("boundary_rows_energy_force_same_branch")
+          if not okf:
+            ctx.violation("force_other_branch", "force: observed %s but the energy of this row (%s) comes from the branch whose -r dV/dr is %s at %s" % (
+              blk["forces"][i], blk["energies"][i], mp.nstr(last[0], 12), where), what="force_other_branch")
+        continue
       if oracle.on_break(r, o.breaks, 1e-9) or ((not o.analytic) and oracle.near_break(r, o.breaks)):
         ctx.count("force_rows_skipped_at_breakpoint")
         continue
